@@ -502,6 +502,10 @@ Fixpoint check_retry (t : trace) : bool :=
     | ERegister _ (KNet fd' d') :: _ =>
       Z.eqb fd (Z.of_nat fd') && match op_dir op with Some d => Bool.eqb d d' | None => false end &&
       check_retry t'
+    | ERegFailNet fd' op' E0 :: _ =>
+      (* the retry of a call with an invalid descriptor or direction is refused for that reason *)
+      Z.eqb fd fd' && Z.eqb op op' &&
+      ((fd <? 0)%Z || match op_dir op with None => true | Some _ => false end) && check_retry t'
     | _ => false
     end
   | ERegFailTimer tm ENOMEM :: t' =>
